@@ -65,3 +65,10 @@ check('C09', 'exploration', 'model-based property testing of op histories with h
       'Invariants: sent exactly once (or 0 iff own failure), never on the pushing thread, flush returns normally only after '
       'every accepted task finished, nothing left pending, refused visibly after close.',
       'Tasks always finish once scheduled; blocked-flush detection polls at 4 ms (affects scheduling only).')
+check('C12', 'exploration', 'model-based property testing of poll/registration histories with task-granular schedule control; real timer mode',
+      'Histories of UPDATE / NO_CHANGE / error / undecodable / partly-bad polls, register / unregister and run-task steps '
+      '(apply tasks executed in any order two workers allow) on real ConfigService + TracepointConfigService + '
+      'TriggerHandler + LongPoll; reference model of latest configuration, hash and live registrations; invariants on '
+      'every poll request and convergence at quiescence, read behaviourally. A timer mode runs the real RepeatedTimer '
+      'against a failing scripted service.',
+      'Task-granular reordering (an apply task is one reference assignment); convergence demanded only at quiescence.')
